@@ -8,6 +8,9 @@ address over ALL slots, typed / catch-all / typed+catch-all, two tries optionall
             3 slots over {div-int, goto, if} x all tables
   thorough: additionally 3 slots full alphabet x all single tries; 3 slots {div-int,return,goto,if,packed} x all tables;
             4 slots {div-int, goto, if} x all single tries
+  both:     tables of THREE disjoint try ranges (handler slots over all slots, typed/typed/typed and typed/catch-all/typed,
+            identical handler specs with one shared encoded handler and with separate ones) over 3 slots {div-int, if}
+            and 4 slots {div-int}; thorough: 3 slots {div-int, goto, if} with four kind patterns
 Plus every method of the shipped DEX files (quick: classes.dex).
 Oracle (ref/cfg.judge_c12): a block reports try range R (get_exception_analysis(): R's start, R's handler addresses,
 each resolved to the block that BEGINS at the handler address) iff some instruction of the block lies in R; a block
@@ -46,7 +49,12 @@ def plans(ctx):
     p = [{"id": "try-n0", "n": 0, "kinds": "PTRXGIKS", "tries": (2, True)},
          {"id": "try-n1", "n": 1, "kinds": "PTRXGIKS", "tries": (2, True)},
          {"id": "try-n2", "n": 2, "kinds": "PTRXGIKS", "tries": (2, True)}]
+    # three try ranges: determineException groups try items by encoded handler, so with ranges 1 and 3 sharing a handler
+    # the analysis sees them in the order 1, 3, 2 -- every sharing pattern (1,2) (2,3) (1,3) all none occurs
+    p.append({"id": "try3-n3-TI", "n": 3, "kinds": "TI", "tries3": ("ttt", "tat")})
+    p.append({"id": "try3-n4-T", "n": 4, "kinds": "T", "tries3": ("ttt", "tat")})
     if ctx.thorough:
+        p.append({"id": "try3-n3-TGI", "n": 3, "kinds": "TGI", "tries3": ("ttt", "tat", "aaa", "ata")})
         p.append({"id": "try1-n3", "n": 3, "kinds": "PTRXGIKS", "tries": (1, False)})
         p.append({"id": "try2-n3-TRGIK", "n": 3, "kinds": "TRGIK", "tries": (2, True)})
         p.append({"id": "try1-n4-TGI", "n": 4, "kinds": "TGI", "tries": (1, False)})
